@@ -7,6 +7,19 @@ def materialise(spec, tag='s'):
     rulesets.write_ruleset(path, spec)
     return name, path
 
+def materialise_case(run, case, tag):
+    """A case carries either a synthetic spec or a training list ('train'): the latter is trained with the real trainer first."""
+    if case.get('train') is not None:
+        from . import trained
+        name, path, res = trained.train_case(case['train'], tag)
+        if not res.ok:
+            repo.drop_rules(name)
+            run.ev('trainings_not_completed'); run.inconc('training did not complete')
+            return None, None
+        run.ev('trained_rulesets')
+        return name, path
+    return materialise(case['spec'], tag)
+
 def flags_of(case):
     f = case.get('flags', {})
     return dict(skip_brute=bool(f.get('skip_brute')), skip_case=bool(f.get('all_lower')), folder=f.get('folder', 'Grammar'))
